@@ -121,6 +121,16 @@ func (p *pendRef) onSlash(v int, f *big.Rat, now time.Time) (map[string]*big.Int
 	return fee, hit
 }
 
+// resyncUnb re-reads the pending unbonding amounts from the raw decode of the queue. Used after a slash callback that
+// aborted half way: the list model cannot know how far it got, and the transitions that follow must be judged against
+// what is really pending (the abort itself is reported where it happens).
+func (p *pendRef) resyncUnb(s *world.Snap) {
+	p.Unb = nil
+	for _, u := range s.Unb {
+		p.Unb = append(p.Unb, refUnb{D: u.D, V: u.V, Denom: u.Denom, Amt: new(big.Int).Set(u.Amt.BigInt()), C: u.Completion.UnixNano()})
+	}
+}
+
 // pendingRedsFrom lists reference redelegations out of v still pending at now.
 func (p *pendRef) pendingRedsFrom(v int, now time.Time) []refRed {
 	var out []refRed
